@@ -45,7 +45,9 @@ ASSUMPTIONS = [
     "device names contain no regex-special characters, so template literals mean themselves",
     "errors: the reference says 'refused' when any conflict or misuse exists; the implementation must then raise "
     "ValueError or MergeForbiddenError (other exception classes are reported under their own signature)",
-    "part B: values are compared with ==; argument mutation is counted, not judged",
+    "the local side of a virtual pair takes from the session what a VirtualLocal can carry (asnum, shared options)",
+    "part B: the expected merger of every field is restated in mc.ref.meshref (DECLARED); a field whose declared merger "
+    "differs from that table is reported; values are compared with ==; argument mutation is counted, not judged",
 ]
 BUDGET = {"quick": 180, "thorough": 1500}
 
@@ -318,10 +320,6 @@ def norm(obj, name=""):
     if type(obj).__name__ == "VidCollection":
         return str(obj)
     return repr(obj)
-
-
-def peer_key(p):
-    return (p["hostname"], p["addr"], p["vrf_name"], str(p["interface"]))
 
 
 def norm_config(cfg):
@@ -645,8 +643,6 @@ def check_case(topo, rules, full=True):
             nontrivial = True
             labels.append("conflict" if exp["conflict"] else "misuse")
             counters["refused:" + exp["why"].split(":")[0]] += 1
-        if impl["status"] == "ok" and [p for p in impl["order"]] and full:
-            pass
     mout, mc = judge_mirror(topo, rules, impl0, exps)
     out.extend(mout)
     counters.update(mc)
